@@ -32,7 +32,15 @@ Record case := mkcase {
   k_breaks : list (snap * snap);    (* per command the host's user ran with stock git during the session (git pack-refs, git gc,
                                        git fetch): what stock git shows just before and just after it; not git-bug's doing *)
   k_broken : list str;              (* the references git for-each-ref reported as broken after some action of the session *)
-  k_maint : bool                    (* stock git completed every one of those commands of the host's user *)
+  k_maint : bool;                   (* stock git completed every one of those commands of the host's user *)
+  k_unreadable : list N;            (* the numbers of the actions after which git for-each-ref did not complete (exit status):
+                                       stock git could not read the references of the repository at all *)
+  k_packed_added : list str;        (* the lines of packed-refs found at the end of a stretch that were not there at its start *)
+  k_probes : list (str * bool * N * N);  (* per stretch and per view stock git gives the host's user of his own work (every stash
+                                       entry as a patch, the staged changes as a patch, the reflogs of his references walked):
+                                       the command, whether it completed both times, its output at the start and at the end *)
+  k_lost : list N;                  (* the objects that were in the object store at the start of a stretch and are not at its end *)
+  k_commit : bool                   (* on a copy of the repository taken at the end, git commit of what is staged completes *)
 }.
 
 (* the stretches of the session in which only git-bug acted: from the start to the first command of the host's user,
@@ -66,9 +74,16 @@ Definition foreign_same (c : case) : bool :=
 Definition refs_valid (c : case) : bool := match k_broken c with [] => true | _ => false end.
 (* every author / committer line is one git fsck accepts *)
 Definition idents_ok (c : case) : bool := forallb (fun p => fsck_identb (fst p) && fsck_identb (snd p)) (k_commits c).
+(* stock git can read the references after every action; whatever was written into packed-refs is a line git accepts *)
+Definition nil_b {A} (l : list A) : bool := match l with [] => true | _ => false end.
+Definition git_reads (c : case) : bool := nil_b (k_unreadable c) && forallb packed_line_okb (k_packed_added c).
+(* the host's user finds his work as he left it: every stash entry, the staged changes, the reflogs; what he staged
+   can be committed *)
+Definition probe_same (p : str * bool * N * N) : bool := match p with (_, ok, b, a) => ok && N.eqb b a end.
+Definition work_kept (c : case) : bool := forallb probe_same (k_probes c) && k_commit c.
 Definition C15_ok (c : case) : bool :=
   foreign_same c && forallb git_tree_okb (k_trees c) && idents_ok c && k_fsck c && k_clone c && k_push c &&
-  refs_valid c && k_maint c.
+  refs_valid c && k_maint c && git_reads c && work_kept c.
 
 Fixpoint index_filter {A} (f : A -> bool) (i : nat) (l : list A) : list nat :=
   match l with [] => [] | x :: t => if f x then index_filter f (S i) t else i :: index_filter f (S i) t end.
@@ -136,9 +151,15 @@ Definition idents_as_model (c : case) : bool :=
    reference file is left without a value (Frame.ref_session_no_broken): git reports no broken reference *)
 Definition refs_as_model (c : case) : bool := refs_valid c.
 
+(* packed-refs: no step of git-bug adds an entry (Frame.gitbug_never_packs), whatever the number of references *)
+Definition packed_as_model (c : case) : bool := nil_b (k_packed_added c) && nil_b (k_unreadable c).
+(* the object store: objects are only added (Frame.objects_kept), reachable or not *)
+Definition objects_as_model (c : case) : bool := nil_b (k_lost c).
+
 Definition agrees (c : case) : bool :=
   match untargeted_refs c, untargeted_cfg c, untargeted_files c with
-  | [], [], [] => rest_same c && trees_as_model c && extras_as_model c && idents_as_model c && refs_as_model c
+  | [], [], [] => rest_same c && trees_as_model c && extras_as_model c && idents_as_model c && refs_as_model c &&
+                  packed_as_model c && objects_as_model c
   | _, _, _ => false
   end.
 Definition mismatches (cs : list case) : list nat := index_filter agrees 0 cs.
@@ -146,4 +167,5 @@ Definition mismatches (cs : list case) : list nat := index_filter agrees 0 cs.
 Definition explain (c : case) :=
   (untargeted_refs c, untargeted_cfg c, untargeted_files c, (rest_same c, trees_as_model c, extras_as_model c, idents_as_model c),
    (foreign_same c, forallb git_tree_okb (k_trees c), idents_ok c, (k_fsck c, k_clone c, k_push c)),
-   (List.length (segments c), k_broken c, k_maint c)).
+   (List.length (segments c), k_broken c, k_maint c),
+   (k_unreadable c, k_packed_added c, filter (fun p => negb (probe_same p)) (k_probes c), List.length (k_lost c), k_commit c)).
